@@ -119,6 +119,9 @@ func RunOpts(args []string, stdin []byte, state State, files map[string][]byte, 
 		}
 	}
 	cmd.Env = []string{"HOME=" + filepath.Join(scratch, "home"), "XDG_CACHE_HOME=" + cacheRoot, "TMPDIR=" + filepath.Join(scratch, "tmp"), "PATH=/usr/bin:/bin", "LANG=C"}
+	if d := os.Getenv("VERIF_GTS_COVERDIR"); d != "" {
+		cmd.Env = append(cmd.Env, "GOCOVERDIR="+d) // coverage audit of the harness (tools/coverage_audit.sh)
+	}
 	res := Result{}
 	if err := cmd.Start(); err != nil {
 		res.Exit = -1
